@@ -16,6 +16,7 @@ from __future__ import annotations
 import hashlib
 import re
 import signal
+import time
 from typing import Any
 
 from vp import core, miniir, proggen
@@ -36,10 +37,7 @@ META = {
         "and by a positive factor, flattening (i = q*N + r), full unrolling incl. zero-trip, scf.for → "
         "header/body/exit CFG by loop invariant, hoisting of a pure invariant computation out of a loop "
         "(incl. zero-trip: only for a total op) and out of a conditional. The model's folded bounds, "
-        "trip counts, induction values and flatten decisions are compared with what the real passes emit. "
-        "XdslProofs/SemMeta.lean proves about the reference semantics itself that an outcome other than "
-        "'out of fuel' is unchanged by more fuel (so the single large fuel used here never changes a "
-        "verdict) and that the external-call log is append-only."
+        "trip counts, induction values and flatten decisions are compared with what the real passes emit."
     ),
     "technique": "translation validation on a Lean reference interpreter + Lean 4 proofs of the loop-arithmetic cores + differential correspondence of the cores with the real passes",
     "level_note": (
@@ -58,9 +56,9 @@ META = {
     "rule": (
         "one case = (program, pass or pass pipeline, input vector). Non-trivial = the pass changed the "
         "program (serialisations differ) and the source run is defined; distinct = distinct (program "
-        "text, pass, input). Families: generic scf/cf programs; chains of addi/muli on the induction "
+        "text, pass, input). Families: generic scf/cf programs; chains of addi/muli/subi (either operand side, single and multiple use) on the induction "
         "variable with constant (incl. 0, negative) and symbolic operands; perfect loop nests with "
-        "constant inner bounds; constant-bound loops (zero-trip, negative ranges); loops with invariant "
+        "constant inner bounds; constant-bound loops (zero-trip, negative ranges) incl. loops carrying 2–3 values whose yield permutes/forwards block arguments across slots; loops with invariant "
         "pure ops incl. divisions; pure scf.if; counting scf.while; affine programs; symref programs "
         "(straight-line and nested)."
     ),
@@ -234,6 +232,14 @@ class Batch:
 
 
 _reported: dict[tuple[str, str], int] = {}
+_deadline = [0.0]
+
+
+def left() -> float:
+    """seconds left for the validation phase (see `run`: it is guaranteed a minimum share even when
+    building and auditing the Lean side on a loaded machine has used up the nominal budget)"""
+    return _deadline[0] - time.time()
+
 WRAP_SIG = "folded loop bounds wrap around at the 64-bit index width"
 
 
@@ -440,7 +446,7 @@ def report(ctx: core.Ctx, prog: dict[str, Any], passes: tuple[str, ...], vec: li
         # shrink the first witness(es) of a cause; later ones are recorded unshrunk (ctx.fail keeps
         # the smallest case per final (call site, signature))
         rounds = 10 if ctx.tier == "quick" else 40
-        if ctx.time_left() < 25:
+        if left() < 25:
             rounds = 3
         cand = shrink_program(prog["text"], passes, prog["arg_types"], vec, kind, rounds)
         k3, s3, t3 = check_one(cand, passes, prog["arg_types"], vec)
@@ -510,7 +516,7 @@ def report_invalid(ctx: core.Ctx, prog: dict[str, Any], passes: tuple[str, ...],
                 if invalid_output("\n".join(cand), passes) == sig:
                     lines, done = cand, False
                     break
-            if done or ctx.time_left() < 20:
+            if done or left() < 20:
                 break
     text = "\n".join(lines)
     ctx.fail(SITE[passes[-1]], sig, {"program": text, "passes": list(passes)},
@@ -539,7 +545,8 @@ def families(tier: str) -> list[tuple[str, Any, list[tuple[str, ...]], int]]:
         ("generic", scf_config([]), one + SCF_PIPELINES, 3),
         ("fold", scf_config(["fold"], shape_weight=8, max_stmts=5), [("scf-for-loop-range-folding",), ("licm", "scf-for-loop-range-folding"), ("scf-for-loop-range-folding", "convert-scf-to-cf"), ("scf-for-loop-unroll",)], 4),
         ("nest", scf_config(["nest"], shape_weight=8, max_stmts=5), [("scf-for-loop-flatten",), ("scf-for-loop-flatten", "scf-for-loop-unroll"), ("convert-scf-to-cf",)], 4),
-        ("unroll", scf_config([], symbolic_bounds=False, cf=False), [("scf-for-loop-unroll",), ("scf-for-loop-unroll", "convert-scf-to-cf")], 2),
+        ("unroll", scf_config(["unroll_perm"], shape_weight=10, max_stmts=5, symbolic_bounds=False, cf=False),
+         [("scf-for-loop-unroll",), ("scf-for-loop-unroll", "convert-scf-to-cf"), ("convert-scf-to-cf",)], 3),
         ("licm", scf_config(["licm"], shape_weight=8, max_stmts=5), [("licm",), ("control-flow-hoist", "licm"), ("licm", "convert-scf-to-cf")], 3),
         ("hoist_if", scf_config(["hoist_if"], shape_weight=8, max_stmts=5), [("control-flow-hoist",), ("control-flow-hoist", "licm"), ("convert-scf-to-cf",)], 3),
         ("while", scf_config(["while", "fold", "licm", "hoist_if"], shape_weight=3), one, 2),
@@ -567,7 +574,7 @@ def run_validation(ctx: core.Ctx, reserve_s: float) -> None:
     batch = Batch(ctx)
     sampled: set[str] = set()
     for rnd in range(rounds):
-        if ctx.time_left() < reserve_s:
+        if left() < reserve_s:
             ctx.count("validation.stopped_by_budget")
             break
         for name, cfg, passlist, weight in fams:
@@ -619,6 +626,8 @@ def run(ctx: core.Ctx) -> None:
         c16_models = None  # type: ignore[assignment]
     if c16_models is not None:
         c16_models.run_models(ctx)
+    floor = 40 if ctx.tier == "quick" else 300
+    _deadline[0] = time.time() + max(ctx.time_left(), floor)
     run_validation(ctx, reserve_s=12 if ctx.tier == "quick" else 60)
 
 
